@@ -97,8 +97,9 @@ Definition median_z (l : list Z) : Z :=
   let k := length s in
   if Nat.even k then ((nth (k / 2 - 1) s 0 + nth (k / 2) s 0) / 2)%Z else nth (k / 2) s 0%Z.
 
-(* np.median(np.diff(tinp)).astype("timedelta64[s]"): whole seconds (floor) *)
-Definition time_interval (ts : list Z) : Z := secs (median_z (diffs ts)).
+(* the median sampling step, in nanoseconds: np.median(np.diff(tinp)) / np.timedelta64(1, "s") is this step in
+   (fractional) seconds.  (Before the repair of F24 it was floored to whole seconds.) *)
+Definition time_interval (ts : list Z) : Z := median_z (diffs ts).
 
 (* min_periods handed to Series.rolling; None = the computation ends in ValueError
    (interval 0: min_period / 0. = inf or nan, .astype(int) = INT64_MIN, rejected by pandas).
@@ -111,7 +112,8 @@ Definition min_periods (min_obs min_period : option Z) (ts : list Z) : option Z 
       | Some mp =>
           if (length ts <=? 1)%nat then Some 0%Z
           else let dt := time_interval ts in
-               if (dt =? 0)%Z then None else Some (Z.quot mp dt)   (* float division, astype(int) truncates *)
+               if (dt =? 0)%Z then None else Some (Z.quot (mp * NS) dt)
+                                              (* min_period / (dt / 10^9 s): float division, astype(int) truncates *)
       | None => Some 1%Z                                           (* min_periods=None, offset window *)
       end
   end.
